@@ -96,19 +96,30 @@ Definition numof (v : value) : option num :=
   | _ => None
   end.
 
-(* coerce.ToNumeric[float64] *)
-Definition to_float (x : num) : fl :=
+(* eval.go compareExact[T](i, f, min, max): the integer i against the float f,
+   exactly.  [lo], [hi] are the bounds of T (powers of two, exact as floats). *)
+Definition cmp_exact (i : Z) (f : fl) (lo hi : Z) : comparison :=
+  if isnan f || flt f (FFin lo 0) then Gt
+  else if fge f (FFin hi 0) then Lt
+  else match Z.compare i (ftrunc f) with
+       | Eq => fcmp (FFin 0 0) (ffrac f)
+       | c => c
+       end.
+
+(* eval.go compareIntegerFloat *)
+Definition cmp_int_float (x : num) (f : fl) : comparison :=
   match x with
-  | NS z => int_to_fl z
-  | NU n => int_to_fl (Z.of_N n)
-  | NF f => f
+  | NU n => cmp_exact (Z.of_N n) f 0 (2 ^ 64)
+  | NS z => cmp_exact z f (- 2 ^ 63) (2 ^ 63)
+  | NF g => fcmp g f
   end.
 
 (* eval.go compareNumbers, case by case *)
 Definition cmpnum (a b : num) : comparison :=
   match a, b with
-  | NF fa, _ => fcmp fa (to_float b)
-  | _, NF fb => fcmp (to_float a) fb
+  | NF fa, NF fb => fcmp fa fb
+  | NF fa, _ => CompOpp (cmp_int_float b fa)
+  | _, NF fb => cmp_int_float a fb
   | NS za, NU nb => if za <? 0 then Lt else Z.compare za (Z.of_N nb)
   | NS za, NS zb => Z.compare za zb
   | NU na, NS zb => if zb <? 0 then Gt else Z.compare (Z.of_N na) zb
@@ -209,16 +220,14 @@ Definition in_range (v : value) : Prop :=
   | _ => True
   end.
 
-(* ---- guards for transitivity (see Proofs/OrderProofs.v) *)
-Definition num_ok (x : num) : Prop :=
+(* ---- well-formedness: integers lie in the range of their 64-bit encoding
+   (the model's Z and N are unbounded) *)
+Definition num_wf (x : num) : Prop :=
   match x with
-  | NS z => float_exact z
-  | NU n => float_exact (Z.of_N n)
+  | NS z => mini64 <= z <= maxi64
+  | NU n => Z.of_N n < 2 ^ 64
   | NF _ => True
   end.
-
-Definition num_nofloat (x : num) : Prop :=
-  match x with NF _ => False | _ => True end.
 
 (* [all_nums P v]: every number occurring in v (at any depth) satisfies P *)
 Fixpoint all_nums (P : num -> Prop) (v : value) : Prop :=
